@@ -16,13 +16,11 @@ fn facts(p: &Pset) -> BTreeSet<Fact> {
     maps.into_iter().enumerate().flat_map(|(i, m)| m.into_iter().map(move |(k, v)| (i, k, v))).collect()
 }
 
-fn ancestor(seed: u64) -> Pset {
+fn ancestor(seed: u64, nin: usize, nout: usize) -> Pset {
     let mut r = rng(seed, 0x14a);
     let mut p = Pset::new_v2();
-    p.add_input(base_input(&mut r, 0));
-    p.add_input(base_input(&mut r, 1));
-    p.add_output(base_output(&mut r, "explicit"));
-    p.add_output(base_output(&mut r, "explicit"));
+    for k in 0..nin { p.add_input(base_input(&mut r, k as u32)); }
+    for _ in 0..nout { p.add_output(base_output(&mut r, "explicit")); }
     p
 }
 
@@ -34,16 +32,14 @@ fn apply_add(p: &mut Pset, add: &Value, seed: u64) {
     let mut r = rng(u64::from_le_bytes([h[0], h[1], h[2], h[3], h[4], h[5], h[6], h[7]]), 1);
     match pos {
         "g" => set_global_field(p, f, &mut r),
-        "i1" => set_input_field(&mut p.inputs_mut()[0], f, &mut r),
-        "i2" => set_input_field(&mut p.inputs_mut()[1], f, &mut r),
-        "o1" => set_output_field(&mut p.outputs_mut()[0], f, &mut r),
-        "o2" => set_output_field(&mut p.outputs_mut()[1], f, &mut r),
+        x if x.starts_with('i') => set_input_field(&mut p.inputs_mut()[x[1..].parse::<usize>().unwrap() - 1], f, &mut r),
+        x if x.starts_with('o') => set_output_field(&mut p.outputs_mut()[x[1..].parse::<usize>().unwrap() - 1], f, &mut r),
         x => panic!("position {}", x),
     }
 }
 
-fn fact_name(tables: &Value, f: &Fact) -> String {
-    let (kind, tk) = match f.0 { 0 => ("global", "g"), 1 | 2 => ("input", "i"), _ => ("output", "o") };
+fn fact_name(tables: &Value, f: &Fact, nin: usize) -> String {
+    let (kind, tk) = if f.0 == 0 { ("global", "g") } else if f.0 <= nin { ("input", "i") } else { ("output", "o") };
     format!("{}.{}", kind, classify(&tables[tk], &f.1))
 }
 
@@ -51,8 +47,9 @@ pub fn replay(args: &[String], out: &mut Out) {
     let cases = read_ndjson(&arg(args, "--cases").expect("--cases"));
     let tables = &read_ndjson(&arg(args, "--tables").expect("--tables"))[0];
     let seed = arg_u64(args, "--seed", 1);
-    let anc = ancestor(seed);
     for (ci, c) in cases.iter().enumerate() {
+        let (nin, nout) = (c["shape"][0].as_u64().unwrap() as usize, c["shape"][1].as_u64().unwrap() as usize);
+        let anc = ancestor(seed, nin, nout);
         out.count("distinct_cases");
         if ci % 700 == 9 { out.sample(c.clone()); }
         let case = json!({"case": c, "case_index": ci, "seed": seed});
@@ -92,7 +89,7 @@ pub fn replay(args: &[String], out: &mut Out) {
                     for f in dfacts[k].iter() {
                         let is_txmod = f.0 == 0 && f.1 == vec![6u8];
                         if !rf.contains(f) && !is_txmod {
-                            let name = fact_name(tables, f);
+                            let name = fact_name(tables, f, nin);
                             // the same key present with another value = a conflict resolved arbitrarily, not a loss; here additions are disjoint or identical
                             bad.push((format!("C14/merge/dropped/{}", name), format!("merging {}", adds_label.join(" | "))));
                         }
@@ -102,7 +99,7 @@ pub fn replay(args: &[String], out: &mut Out) {
                 let union: BTreeSet<&Fact> = merged.iter().flat_map(|k| dfacts[*k].iter()).collect();
                 for f in rf.iter() {
                     let is_txmod = f.0 == 0 && f.1 == vec![6u8];
-                    if !union.contains(f) && !is_txmod { bad.push((format!("C14/merge/invented/{}", fact_name(tables, f)), adds_label.join(" | "))); }
+                    if !union.contains(f) && !is_txmod { bad.push((format!("C14/merge/invented/{}", fact_name(tables, f, nin)), adds_label.join(" | "))); }
                 }
                 if acc.unique_id().ok() != ids[ord[0]] { bad.push(("C14/merge/unique-id-changed".into(), adds_label.join(" | "))); }
                 if merged.len() == descs.len() { results.push(acc); }
@@ -112,7 +109,7 @@ pub fn replay(args: &[String], out: &mut Out) {
                     if *r2 != results[0] || serialize(r2) != serialize(&results[0]) {
                         // name the facts on which the orders disagree
                         let (fa, fb) = (facts(&results[0]), facts(r2));
-                        let diff: BTreeSet<String> = fa.symmetric_difference(&fb).map(|f| fact_name(tables, f)).collect();
+                        let diff: BTreeSet<String> = fa.symmetric_difference(&fb).map(|f| fact_name(tables, f, nin)).collect();
                         bad.push((format!("C14/merge/order-sensitive/{}", diff.into_iter().collect::<Vec<_>>().join("+")), adds_label.join(" | ")));
                         break;
                     }
@@ -136,7 +133,7 @@ fn keysource_of(v: &Value) -> (Fingerprint, DerivationPath) {
 pub fn keysources(args: &[String], out: &mut Out) {
     let cases = read_ndjson(&arg(args, "--cases").expect("--cases"));
     let seed = arg_u64(args, "--seed", 1);
-    let anc = ancestor(seed);
+    let anc = ancestor(seed, 2, 2);
     let mut r = rng(seed, 0x14b);
     let x = xpub(&mut r);
     for (ci, c) in cases.iter().enumerate() {
